@@ -12,3 +12,5 @@ func Mut(string, string, int) {}
 func FaultWrite(string, []byte) (int, error, bool) { return 0, nil, false }
 
 func DiskFree(_ string, real uint64) uint64 { return real }
+
+func FaultMeta(string, string) error { return nil }
